@@ -12,7 +12,7 @@ ROUND5 = {
  "C13": "A first connection left open by a publisher that joined again under its identity is judged like any other peer while the socket still holds it.",
  "C02": "One drawn stream in twelve carries a frame of 64 KiB..2 MiB with further messages behind it.",
  "C03": "Two attacks are long runs (3 000 / 30 000) of well-formed commands after the handshake, then a message. A further attack is a series of well-formed subscriptions and cancellations with filters around the topics the (PUB/XPUB) victim publishes afterwards.",
- "C04": "predicted_identity: a peer announces a neighbour of an identity the socket generated for an anonymous peer, more anonymous peers join; registrations stay pairwise distinct and the announcing peer stays a peer. readmission: a peer leaves and is admitted again under its announced identity (96 histories): it is registered - heard, reachable, labelled, connection kept.",
+ "C04": "predicted_identity: if the socket generates short identities (up to 8 bytes, where applications number their peers) a peer announces a neighbour of one, more anonymous peers join; registrations stay pairwise distinct and the announcing peer stays a peer. readmission: a peer leaves and is admitted again under its announced identity (96 histories): it is registered - heard, reachable, labelled, connection kept.",
  "C05": "One fault-free case in sixteen is a long history (90..210 messages per sender). l2_big draws frames of 1 MiB and more.",
  "C08": "rejoin_reply: the reply goes to the connection the request came from, also after the requester rejoined under its identity. A third of the disturbed call sequences put a frame of 0, 256, 300 or 9000 bytes in front of the last frame of requests and replies.",
  "C09": "router_abandoned_send: a routed send under back-pressure is dropped after k polls; the peer stays addressable. Departing peers may only shut down their sending direction (judged for consistency); rejoin_during_blocked_send: the target's peer joins again under its identity while a routed send to it is blocked.",
